@@ -18,7 +18,8 @@ abbrev OutKind (m : Message) : Prop := m.typ = .app ∨ m.typ = .heartbeat ∨ m
 theorem AuxInv.of_hbFrame {n : Nat} {r r' : Raft} (h : AuxInv n r) (f : HbFrame r r')
     (hout : ∀ m ∈ r'.msgs, OutKind m → m.from = n ∧ m.to ≠ n) : AuxInv n r' ∧ AuxFrame r r' := by
   have haf : AuxFrame r r' :=
-    ⟨Nat.le_of_eq f.term.symm, fun _ hl => ⟨f.state.trans hl, Nat.le_of_eq (by rw [f.log])⟩⟩
+    ⟨Nat.le_of_eq f.term.symm, fun _ hl => ⟨f.state.trans hl, Nat.le_of_eq (by rw [f.log])⟩,
+      fun _ hf => f.state.trans hf⟩
   refine ⟨⟨?_, ?_, hout⟩, haf⟩
   · rw [f.state, f.log]
     intro hs pr hp
@@ -55,7 +56,7 @@ theorem aux_hb_same {val : Val} {voters : List Id} {n : Nat} {s : Spec.State} {r
     subst this
     exact ⟨haux, AuxFrame.refl _⟩
   · obtain ⟨_, hf, _, _, hmsgs, hmaa⟩ := step_hb_refine fuel m r r' e ht hterm hs hinv.wf h
-    have haf : AuxFrame r r' := ⟨Nat.le_of_eq hf.term.symm, fun _ hl => absurd hl hs⟩
+    have haf : AuxFrame r r' := ⟨Nat.le_of_eq hf.term.symm, fun _ hl => absurd hl hs, fun _ _ => hf.state⟩
     refine ⟨⟨?_, ?_, ?_⟩, haf⟩
     · intro hl; rw [hf.state] at hl; cases hl
     · rw [hmaa]
@@ -156,19 +157,43 @@ theorem aux_bcastHeartbeat {n : Nat} {r : Raft} (haux : AuxInv n r) (hid : r.cfg
   obtain ⟨⟨h1, h2⟩, h3⟩ := aux_sendHeartbeat ha (by rw [hcfg]; exact hid) hidn hr2
   exact ⟨⟨h1, hf.trans h2⟩, h3.trans hcfg⟩
 
+/-- marking the peers inactive keeps the auxiliary invariant -/
+theorem AuxInv.clearRA {n : Nat} {r : Raft} (h : AuxInv n r) : AuxInv n (clearRA r) := by
+  refine ⟨fun hl pr hp => ?_, h.self, h.outFrom⟩
+  rw [getProgress_clearRA] at hp
+  cases hq : r.trk.getProgress n with
+  | none => rw [hq] at hp; cases hp
+  | some pr0 =>
+    rw [hq] at hp
+    injection hp with hp
+    subst hp
+    have := h.matchLe hl pr0 hq
+    show (if n = r.cfg.id then pr0 else { pr0 with recentActive := false }).match_ ≤ r.log.lastIndex
+    split <;> exact this
+
+/-- tick of a leader (a leader that steps down — CheckQuorum — keeps its term: the pending acknowledgements of its
+own stay harmless, `SelfOK`) -/
 theorem aux_tick_leader {val : Val} {voters : List Id} {n : Nat} {s : Spec.State} {r r' : Raft}
     (hinv : RaftInv val voters n r (s.nodes n) s.msgs) (haux : AuxInv n r) (hs : r.state = .leader)
-    (h : Raft.tick.run r = .ok ((), r')) : AuxInv n r' ∧ AuxFrame r r' := by
+    (h : Raft.tick.run r = .ok ((), r')) : AuxInv n r' ∧ r.term ≤ r'.term := by
   rw [tick_leader_run r hs] at h
-  obtain ⟨ra, ⟨he, ee, rfl⟩, hcase⟩ := tickHeartbeat_leader_inv r r' hs hinv.st.cq hinv.st.xfer h
+  obtain ⟨ra, ⟨he, ee, rfl⟩, hcase⟩ := tickHeartbeat_leader_inv r r' hs hinv.st.xfer h
   have hra : AuxInv n { r with heartbeatElapsed := he, electionElapsed := ee } :=
     ⟨haux.matchLe, haux.self, haux.outFrom⟩
-  have hfa : AuxFrame r { r with heartbeatElapsed := he, electionElapsed := ee } :=
-    ⟨Nat.le_refl _, fun _ hl => ⟨hl, Nat.le_refl _⟩⟩
-  rcases hcase with rfl | ⟨res, hb⟩
-  · exact ⟨hra, hfa⟩
-  · obtain ⟨u, hu⟩ := stepLeader_beat_bcast _ _ _ _ _ rfl hb
-    obtain ⟨h1, h2⟩ := (aux_bcastHeartbeat hra hinv.st.id hinv.st.ro).elim hu
-    exact ⟨h1, hfa.trans h2⟩
+  rcases hcase with ⟨rb, hrb, hcase⟩ | ⟨r1, hbf, rfl⟩
+  · have hrb' : AuxInv n rb ∧ rb.cfg.id = n ∧ rb.readOnly.unconfirmed = [] ∧ rb.term = r.term := by
+      rcases hrb with rfl | rfl
+      · exact ⟨hra, hinv.st.id, hinv.st.ro, rfl⟩
+      · exact ⟨hra.clearRA, hinv.st.id, hinv.st.ro, rfl⟩
+    rcases hcase with rfl | ⟨res, hb⟩
+    · exact ⟨hrb'.1, Nat.le_of_eq hrb'.2.2.2.symm⟩
+    · obtain ⟨u, hu⟩ := stepLeader_beat_bcast _ _ _ _ _ rfl hb
+      obtain ⟨h1, h2⟩ := (aux_bcastHeartbeat hrb'.1 hrb'.2.1 hrb'.2.2.1).elim hu
+      exact ⟨h1, hrb'.2.2.2 ▸ h2.term⟩
+  · obtain ⟨d, rest, _, rfl⟩ := becomeFollower_run_exact hbf
+    refine ⟨AuxInv.clearRA ⟨fun hl => (by cases hl), fun m hm => ?_, haux.outFrom⟩, Nat.le_refl _⟩
+    intro hto
+    obtain ⟨a1, a2, a3, a4, a5⟩ := haux.self m hm hto
+    exact ⟨a1, a2, a3, a4, fun _ _ => Or.inl rfl⟩
 
 end RaftVerif.Sim
